@@ -12,7 +12,8 @@ From Verif Require Import Model.StackX Spec.StackXSpec.
    the grant rule (server feature exists with server/special role and requested type or
    Generic, client feature exists on that peer with client/special role and matching type,
    pair not subscribed yet) with exactly one add event; a delete removes exactly the
-   addressed pair and fails if it does not exist; a data change sends exactly one
+   addressed pair OF THE CALLING CONNECTION and fails if that connection holds none (whatever
+   device address the call names, and whatever other peers announce); a data change sends exactly one
    notification per currently subscribed remote feature and nothing else; a listing is
    exactly the peer's entries with pairwise distinct ids; no stray notification or
    subscription event on any other operation.  Nothing is excused. *)
@@ -62,4 +63,26 @@ Example C08_nonvacuous :
       [ONotify 2 (a (Some 0%N) [1%N] 1) (a (Some 2%N) [1%N] 1) 1 78];
       [OEntry 2 (a (Some 0%N) [1%N] 1) (a (Some 2%N) [1%N] 1)] ] /\
   accepted (judge minit (snd (run init c08_example))) = true.
+Proof. vm_compute. split; reflexivity. Qed.
+
+(* By-connection delete: peers 1 and 2 announce THE SAME device address (tree 1) and subscribe the
+   same pair; peer 2 deletes: exactly its own entry goes (one removal event for connection 2), a
+   data change still reaches peer 1, peer 1's listing still shows its entry, and a repeated delete
+   by peer 2 is refused without touching it. *)
+Definition c08_twins : list op :=
+  [ AddLocalEntity [1%N]; AddLocalFeature [1%N] 1 RServer; AddFunction [1%N] 1 1 true true;
+    Connect 1; DiscoveryReply 1 (tree 1); Connect 2; DiscoveryReply 2 (tree 1);
+    SubCall 1 11 false (call 1); SubCall 2 21 false (call 1);
+    SubDelete 2 22 true (call 1); SetData [1%N] 1 1 77; ListSubs 1; ListSubs 2;
+    SubDelete 2 23 true (call 1); ListSubs 1 ].
+Example C08_delete_by_connection :
+  map snd (skipn 9 (snd (run init c08_twins))) =
+    [ [OEvent EvSub ChRemove 2 (Some [1%N]) (Some (a (Some 1%N) [1%N] 1)) (Some (a (Some 0%N) [1%N] 1));
+       OResult 2 22 false (a (Some 0%N) [0%N] 0) (a (Some 1%N) [0%N] 0)];
+      [ONotify 1 (a (Some 0%N) [1%N] 1) (a (Some 1%N) [1%N] 1) 1 77];
+      [OEntry 1 (a (Some 0%N) [1%N] 1) (a (Some 1%N) [1%N] 1)];
+      [];
+      [OResult 2 23 true (a (Some 0%N) [0%N] 0) (a (Some 1%N) [0%N] 0)];
+      [OEntry 1 (a (Some 0%N) [1%N] 1) (a (Some 1%N) [1%N] 1)] ] /\
+  accepted (judge minit (snd (run init c08_twins))) = true.
 Proof. vm_compute. split; reflexivity. Qed.
